@@ -396,9 +396,12 @@ def exact_old_pivot_margin(pat, prec, avals, permr_old, permc, u, mg):
     # the magnitude used by p?gstrf_pivotL: fabs for real, |re|+|im| (c_abs1/z_abs1) for complex; squared to keep one code path
     def m2(z): return (abs(z.re) + abs(z.im)) ** 2
     minr = None
+    touched = set()          # entries that received an elimination update: an exact zero there is a rounding residue in the C code
     for k in range(n):
         piv = M[k][k]
         p2 = m2(piv) if piv is not None else Fraction(0)
+        if piv is not None and p2 == 0 and (k, k) in touched:
+            return "ambiguous", k, None
         others = [m2(M[i][k]) for i in range(k + 1, n) if M[i][k] is not None]
         o2 = max(others) if others else Fraction(0)
         mx2 = max(p2, o2)
@@ -419,6 +422,7 @@ def exact_old_pivot_margin(pat, prec, avals, permr_old, permc, u, mg):
                 if M[k][j] is None: continue
                 t = l * M[k][j]
                 M[i][j] = (M[i][j] - t) if M[i][j] is not None else (CQ(Fraction(0), Fraction(0)) - t)
+                touched.add((i, j))
     return "pass", None, minr
 
 
@@ -639,6 +643,11 @@ def _evaluate_case(case, rc, res, err, margin=None):
     # wrappers of the harness saw a thread being handed work arrays that another thread was still using
     ws_ops = set(i for i, r in enumerate(res) if r.get("wso") == 1 and ops[i]["op"] in ("first", "refact") and ops[i].get("nprocs", 1) > 1
                  and ops[i].get("lwork", 0) > 0)
+    # histories in the regime of finding F17 (a factorization with >= 3 threads in a user workspace): p?gstrf_WorkFree of the first
+    # thread to finish releases the tail blocks of all threads, a late thread works in live memory; the damage is silent, persists
+    # in the user buffer and the wrappers above see it only when it is observable at call granularity (about 1 run in 10^3..10^4).
+    # Numeric symptoms AFTER such a call are attributed to that finding (keyed by the history class, not by the symptom).
+    ws_ops |= set(i for i, o in enumerate(ops) if o["op"] in ("first", "refact") and o.get("nprocs", 1) >= 3 and o.get("lwork", 0) > 0)
     if f1_ops or ws_ops:
         st["f1_order_seen"] = len(f1_ops); st["ws_overlap_seen"] = len(ws_ops)
         last_factor = {}
@@ -650,8 +659,10 @@ def _evaluate_case(case, rc, res, err, margin=None):
                    "spurious_singular", "usepr_not_honoured", "usepr_no_fallback", "bad_info")
         for f in fails:
             if f.key.get("kind") not in numeric: continue
-            if last_factor.get(f.op) in f1_ops: f.key = {"kind": "fixupL_order"}
-            elif last_factor.get(f.op) in ws_ops: f.key = {"kind": "user_workspace_thread_overlap"}
+            # the user buffer (with L, U and the permutations' provenance) lives on through the session: once a thread was handed
+            # live work arrays, every later numeric symptom of the session is attributed to that defect (finding F17)
+            if any(j <= f.op for j in ws_ops): f.key = {"kind": "user_workspace_thread_overlap"}
+            elif last_factor.get(f.op) in f1_ops: f.key = {"kind": "fixupL_order"}
     return fails, st
 
 
